@@ -1,4 +1,5 @@
 import OtelVerif.Lemmas.C08
+import OtelVerif.Lemmas.C08Json
 import OtelVerif.Gen.OtlpSchema
 /-!
 # C08 — OTLP protobuf and JSON codecs are lossless, consistent and total
@@ -154,11 +155,6 @@ theorem C08_json_cases_cover :
     uncovered otlp = [("logs.ResourceLogs", "DeprecatedScopeLogs"), ("metrics.ResourceMetrics", "DeprecatedScopeMetrics"),
       ("trace.ResourceSpans", "DeprecatedScopeSpans")] := by decide
 
-/-- laws of the text-level codecs the JSON theorems rely on (decimal text of naturals) -/
-structure DecLaws (T : Txt) : Prop where
-  undec_dec : ∀ n, T.undec (T.dec n) = some n
-  dec_nosign : ∀ n ds, T.dec n ≠ 45 :: ds
-
 theorem parseInt_dec (T : Txt) (h : DecLaws T) (signed : Bool) (w n : Nat)
     (hn : n < (if signed then 2 ^ (w - 1) else 2 ^ w)) : parseInt T signed w (T.dec n) = some n := by
   unfold parseInt
@@ -201,6 +197,69 @@ message-level induction for `fromJ ∘ toJ` (same shape as `rt_all`) is not writ
 def C08_json_roundtrip_full : Prop :=
   ∀ (T : Txt), DecLaws T → ∀ m v, Conforms otlp m v →
     ∃ v', fromJson otlp T otlpD m (toJson otlp T m v) = some v' ∧ encode otlp m v' = encode otlp m (canon otlp (.slots (otlp.slots m)) v)
+
+
+/-! ## JSON: message-level round trip and protobuf/JSON consistency (theorems; supersede the `def` above) -/
+
+theorem toJ_slots_isObj (S : Schema) (T : Txt) : ∀ (v : Val) (rem : List Slot),
+    toJ S T (.slots rem) v = .onil ∨ ∃ k j tl, toJ S T (.slots rem) v = .ocons k j tl := by
+  intro v
+  induction v with
+  | cons x xs _ ih =>
+    intro rem
+    cases rem with
+    | nil => exact Or.inl (toJ_slots_nil S T _)
+    | cons s ss =>
+      cases s with
+      | one f =>
+        rw [toJ_slots_one]
+        split
+        · exact ih ss
+        · exact Or.inr ⟨_, _, _, rfl⟩
+      | oneof g alts =>
+        rw [toJ_slots_oneof]
+        split
+        · exact Or.inr ⟨_, _, _, rfl⟩
+        · exact ih ss
+  | _ => intro rem; left; rw [toJ]; intro s ss x xs h; cases h
+
+/-- **Lossless (JSON).** For every well-formed schema whose reader tables are consistent (`JWF`), every lawful text codec,
+every conforming value that is JSON-representable (`jcov`: no field is populated that the reader of its message has no
+`case` for — for OTLP only the deprecated scope lists, `C08_json_cases_cover` — and bytes are bytes):
+reading back what the marshaler wrote yields the original value with every NaN canonicalised (`normV`; the marshaler
+prints `"NaN"`).  Any nesting depth, any one-of alternative, recursive `AnyValue`s included. -/
+theorem C08_json_roundtrip (S : Schema) (D : List Val) (T : Txt) (hwf : WF S D = true) (hj : JWF S = true)
+    (hT : TxtLaws T) (m : Nat) (v : Val) (hc : Conforms S m v) (hcov : jcov S m (.slots (S.slots m)) v = true) :
+    fromJson S T D m (toJson S T m v) = some (normV S (.slots (S.slots m)) v) := by
+  have h := jrt_all S T D hT (wf_slots hwf) (jwf_slots hj) (wf_defaults hwf) (.slots (S.slots m)) v m [] []
+    (by simp) rfl hc hcov
+  simp only [List.nil_append] at h
+  have hp := proper_normV_slots S v (S.slots m) (conf_slots_proper S false v _ hc)
+  have hd : Val.ofList (List.map (slotDefault D) (S.slots m)) = D.getD m .nil := by
+    rw [wf_defaults hwf m, msgDefault]
+  rw [hd, ofList_toList _ hp] at h
+  rcases toJ_slots_isObj S T v (S.slots m) with ho | ⟨k, j, tl, ho⟩
+  · rw [ho] at h; simp only [toJson, fromJson, ho]; exact h
+  · rw [ho] at h; simp only [toJson, fromJson, ho]; exact h
+
+/-- **Consistent.** Decoding the JSON form and encoding the result as protobuf gives the bytes of the (NaN-normalised)
+original; for a payload without non-canonical NaNs exactly the bytes of the original. -/
+theorem C08_consistent (S : Schema) (D : List Val) (T : Txt) (hwf : WF S D = true) (hj : JWF S = true)
+    (hT : TxtLaws T) (m : Nat) (v : Val) (hc : Conforms S m v) (hcov : jcov S m (.slots (S.slots m)) v = true) :
+    ∃ v', fromJson S T D m (toJson S T m v) = some v' ∧ encode S m v' = encode S m (normV S (.slots (S.slots m)) v) ∧
+      (normV S (.slots (S.slots m)) v = v → encode S m v' = encode S m v) :=
+  ⟨_, C08_json_roundtrip S D T hwf hj hT m v hc hcov, rfl, fun h => by rw [h]⟩
+
+set_option maxRecDepth 100000 in
+/-- the regenerated reader tables are consistent with the regenerated schema: every field that has a `case` is found by
+its JSON name at its own slot (no two fields of a message share a JSON/proto name) -/
+theorem C08_json_wf : JWF otlp = true := by decide
+
+/-- … in particular for OTLP, all signals and wrappers. -/
+theorem C08_json_roundtrip_otlp (T : Txt) (hT : TxtLaws T) (m : Nat) (v : Val) (hc : Conforms otlp m v)
+    (hcov : jcov otlp m (.slots (otlp.slots m)) v = true) :
+    fromJson otlp T otlpD m (toJson otlp T m v) = some (normV otlp (.slots (otlp.slots m)) v) :=
+  C08_json_roundtrip otlp otlpD T C08_schema_wf C08_json_wf hT m v hc hcov
 
 /-! ## non-vacuity: a small schema using every slot discipline, a conforming value with extreme numerics -/
 def S0 : Schema := { msgs := [
